@@ -266,6 +266,21 @@ def act_old_format_metadata(data="data"):
     return run
 
 
+def act_empty_internal(data="data"):
+    """Empties the blob directory (a cache clean-up, an internal directory replaced by a new one): the links of the data
+    directory stay behind and dangle."""
+    def run(root):
+        i, _ = dirs(root, data)
+        n = 0
+        for fn in sorted(os.listdir(os.path.join(i, "blobs"))):
+            os.remove(os.path.join(i, "blobs", fn))
+            n += 1
+        return "emptied-internal:%d" % n
+
+    run.__name__ = "empty-internal-directory"
+    return run
+
+
 def act_default_store_keep(path, fn_name):
     def run(root):
         # the lazily created default store lives under tempfile.gettempdir(): redirect it into the scenario root
